@@ -76,6 +76,17 @@ Definition batch_process {T R} (batch_size : N) (proc : list T -> option (list R
   let '(r, _, tr) := yloop proc (@tick_always unit) (bp_chunks batch_size xs) tt [] [] in
   (match r with Some parts => Some (concat parts) | None => None end, tr).
 
+(* The stages' own process_batch (src/concurrency/pipeline.rs): the trait default (MapStage, FilterStage, BatchMapStage without
+   a batch function) is the same loop without any suspension of its own - `for input in inputs { results.push(self.process(input).await?) }`;
+   BatchMapStage with a batch function hands it the whole input once.  FilterStage::process never fails and keeps one entry per
+   input (`None` for an item the predicate rejects). *)
+Definition tick_never {S : Type} (s : S) : S * bool := (s, false).
+Definition stage_batch_default {T R} (f : T -> option R) (xs : list T) : option (list R) * list (ev T) :=
+  let '(r, _, tr) := yloop f (@tick_never unit) xs tt [] [] in (r, tr).
+Definition stage_batch_func {T R} (bf : list T -> option (list R)) (xs : list T) : option (list R) * list (ev (list T)) :=
+  (bf xs, [ECall xs]).
+Definition filter_process {T} (p : T -> bool) (x : T) : option (option T) := Some (if p x then Some x else None).
+
 (* what the theorems talk about *)
 Fixpoint calls {T} (tr : list (ev T)) : list T :=
   match tr with [] => [] | ECall x :: r => x :: calls r | EYield :: r => calls r end.
@@ -130,8 +141,8 @@ Definition buffered_result {R} (res : nat -> option R) (n : nat) (b : buf) : opt
 
 (* the settled state after the gates in `open` have been opened and the future has been polled until it is Pending:
    everything that can happen without a further gate has happened *)
-Fixpoint settle_win (open : nat -> bool) (w : list (nat * bool)) : list (nat * bool) :=
-  match w with [] => [] | (j, d) :: r => (j, d || open j) :: settle_win open r end.
+Definition done_open (n maxc : nat) (open : nat -> bool) (b : buf) : buf :=
+  fold_left (fun b j => if open j then b_step n maxc b (BDone j) else b) (map fst (b_win b)) b.
 Fixpoint emit_all (fuel : nat) (n maxc : nat) (b : buf) : buf :=
   match fuel with
   | O => b
@@ -153,7 +164,7 @@ Fixpoint b_settle (fuel : nat) (n maxc : nat) (open : nat -> bool) (b : buf) : b
   match fuel with
   | O => b
   | S fu =>
-      let b1 := mkB (b_next b) (settle_win open (b_win b)) (b_out b) in
+      let b1 := done_open n maxc open b in
       let b2 := emit_all (S n) n maxc b1 in
       let b3 := fill_all (S n) n maxc open b2 in
       b_settle fu n maxc open b3
@@ -168,9 +179,11 @@ Definition obs_trn (tr : list (ev N)) : list Z := map (fun e => match e with ECa
 Definition obs_trc (tr : list (ev (list Z))) : list Z :=
   flat_map (fun e => match e with ECall c => CHUNK :: c | EYield => [YIELD] end) tr.
 Definition INIT_BUDGET : N := 16.
+Definition FILTERED : Z := 100002%Z.
 
-(* kind 19: a = which (1 process_vec_yielding, 2 run_with_yield, 3 for_each, 4 batch_process, 7 collect), b = interval
-   resp. batch size: result, -7, trace *)
+(* kind 19: a = which (1 process_vec_yielding, 2 run_with_yield, 3 for_each, 4 batch_process, 7 collect; the stages' own
+   process_batch: 8 MapStage, 9 BatchMapStage without batch function, 10 BatchMapStage with one, 11 FilterStage with the
+   predicate x mod 3 <> 0), b = interval resp. batch size: result, -7, trace *)
 Definition case_yield (which interval : N) (xs : list Z) : list Z :=
   match which with
   | 1 => let '(r, _, tr) := process_vec_yielding INIT_BUDGET interval stage xs in obs_optl r ++ [(-7)%Z] ++ obs_tr tr
@@ -178,6 +191,10 @@ Definition case_yield (which interval : N) (xs : list Z) : list Z :=
          obs_optl r ++ [(-7)%Z] ++ obs_trn tr
   | 3 => let '(r, _, tr) := yi_for_each INIT_BUDGET interval stage xs in obs_optl r ++ [(-7)%Z] ++ obs_tr tr
   | 4 => let '(r, tr) := batch_process interval (map_opt stage) xs in obs_optl r ++ [(-7)%Z] ++ obs_trc tr
+  | 8 | 9 => let '(r, tr) := stage_batch_default stage xs in obs_optl r ++ [(-7)%Z] ++ obs_tr tr
+  | 10 => let '(r, tr) := stage_batch_func (map_opt stage) xs in obs_optl r ++ [(-7)%Z] ++ obs_trc tr
+  | 11 => let '(r, tr) := stage_batch_default (filter_process (fun x => negb (x mod 3 =? 0)%Z)) xs in
+          obs_optl (option_map (map (fun o => match o with Some x => x | None => FILTERED end)) r) ++ [(-7)%Z] ++ obs_tr tr
   | _ => let '(r, _, tr) := yi_collect INIT_BUDGET interval xs in obs_optl r ++ [(-7)%Z] ++ obs_tr tr
   end.
 
